@@ -216,8 +216,19 @@ pub fn run(run: &Run) {
         vp.extend([(4, 6, 2, 3), (4, 6, 4, 3), (3, 6, 4, 6), (4, 6, 1, 3), (6, 4, 3, 1), (33, 33, 1, 33), (33, 33, 33, 1)]);
         vp.par_iter().for_each(|&(r1, c1, r2, c2)| {
             for (fname, fill) in &fills {
-                for side in 0..2 {
-                    let (lv, rv) = if side == 0 { (left(r1 * c1), fill(r2 * c2)) } else { (fill(r1 * c1), right(r2 * c2)) };
+                for side in 0..3 {
+                    // side 2: both operands of tiny magnitude (distinct values that an absolute comparison at machine
+                    // epsilon cannot tell apart), once per shape pair
+                    if side == 2 && *fname != "zeros" {
+                        continue;
+                    }
+                    let (lv, rv) = if side == 0 {
+                        (left(r1 * c1), fill(r2 * c2))
+                    } else if side == 1 {
+                        (fill(r1 * c1), right(r2 * c2))
+                    } else {
+                        ((0..r1 * c1).map(|k| 1.3e-17 * (k + 1) as f64).collect(), (0..r2 * c2).map(|k| 2.9e-17 * (k + 2) as f64 - 1e-18 * ((k * k) % 5) as f64).collect())
+                    };
                     let a = Matrix::new(lv.clone(), r1 as i32, c1 as i32);
                     let b = Matrix::new(rv.clone(), r2 as i32, c2 as i32);
                     let leaf = leaf_name(r1, c1, r2, c2);
@@ -227,7 +238,7 @@ pub fn run(run: &Run) {
                         run.tr();
                         run.nontrivial(1);
                         let res = guard(|| binop_forms!(op, 3, a, b));
-                        let desc = || format!("Matrix {}x{} {} Matrix {}x{} ({} {} operand)", r1, c1, OPS[op], r2, c2, fname, if side == 0 { "right" } else { "left" });
+                        let desc = || format!("Matrix {}x{} {} Matrix {}x{} ({} {} operand)", r1, c1, OPS[op], r2, c2, if side == 2 { "tiny distinct values," } else { fname }, if side == 0 { "right" } else if side == 1 { "left" } else { "either" });
                         judge(run, "MatMat", op, &desc, res, &want, &leaf);
                         // the Vector forms of a single-row operand
                         if side == 0 && r2 == 1 {
